@@ -371,7 +371,7 @@ pub fn run(ctx: &Ctx) -> (Outcome, String, Option<bool>) {
         },
     );
     out.absorb(o);
-    let rule = "Generated: a coin created at height 1-6 on Custom02 / Mainnet / Testnet and aged 1, 2, 3, 7, 30, 98, 99, 100, 101 or 140 blocks; a genuine MelPoW proof generated for the puzzle hash_keyed(header(creation height).hash(), stdcode(coin id)) under the legacy hash (difficulty 1-14 quick, to 17 thorough) or the TIP-910 hash (1-11 quick, 12 thorough); ERG output at the independently recomputed bound floor(reward x inflator) / +1 / -1 / 0 / half / double; then one of: no corruption (4/12), a flipped label bit, a dropped node, difficulty claimed +-1, proof for another coin, for another height's header, undecodable data or proof bytes, the fee coin listed first; optionally a second mint one block later at a neighbouring difficulty; a quarter of the cases each start from a state re-based to DOSC speed 10 or 5000 (so that rewards are non-zero and the first mint raises the speed seen by the second); plus a phase with four TIP-910 mints (difficulty 13-14, one 1-2 lower, 8 and 9) in ONE batch with the fastest first in either half, on a single-threaded pool. Oracle (RefSTF's mint rules with the harness's own copies of both hash functions): accepted => proof verifies for that puzzle and difficulty, ERG <= bound, age >= 100 on mainnet; a genuine proof at or below the bound is accepted; after sealing, header DOSC speed = max(previous, demonstrated speed) and never decreases. Non-trivial = every mint carrying a generated proof; distinct by (difficulty, variant, age, amount class, corruption, network).".to_string();
+    let rule = "Generated: a coin created at height 1-6 on Custom02 / Mainnet / Testnet and aged 1, 2, 3, 7, 30, 98, 99, 100, 101 or 140 blocks; a genuine MelPoW proof generated for the puzzle hash_keyed(header(creation height).hash(), stdcode(coin id)) under the legacy hash (difficulty 1-14 quick, to 17 thorough) or the TIP-910 hash (1-11 quick, 12 thorough); ERG output at the independently recomputed bound floor(reward x inflator) / +1 / -1 / 0 / half / double; then one of: no corruption (4/12), a flipped label bit, a dropped node, difficulty claimed +-1, proof for another coin, for another height's header, undecodable data or proof bytes, the fee coin listed first; optionally a second mint one block later at a neighbouring difficulty; a quarter of the cases each start from a state re-based to DOSC speed 10 or 5000 (so that rewards are non-zero and the first mint raises the speed seen by the second); plus a phase with four TIP-910 mints (difficulty 13-14, one 1-2 lower, 8 and 9) in ONE batch with the fastest first in either half, on a single-threaded pool, and the same four mints applied one call at a time (a block built in steps: the recorded speed must not fall back). Oracle (RefSTF's mint rules with the harness's own copies of both hash functions): accepted => proof verifies for that puzzle and difficulty, ERG <= bound, age >= 100 on mainnet; a genuine proof at or below the bound is accepted; after sealing, header DOSC speed = max(previous, demonstrated speed) and never decreases. Non-trivial = every mint carrying a generated proof; distinct by (difficulty, variant, age, amount class, corruption, network).".to_string();
     (out, rule, None)
 }
 
@@ -466,6 +466,38 @@ fn two_mints_one_batch(fast_first: bool, d_fast: u32, gap: u32, st: &mut Stats, 
             st.class("two-mints-in-one-batch");
         }
         Ok(Err(_)) => st.exclude("two-mint-batch-rejected"),
+        Err(_) => st.exclude("panicked"),
+    }
+    // the same four mints handed to the block one call at a time (a builder filling its block step by step), the
+    // fastest first or third: the speed recorded for the block is still the maximum, and it never falls back mid-block
+    let mut trial = w.cur.clone();
+    let r = crate::util::catch(|| {
+        single.install(|| {
+            for tx in batch.iter() {
+                trial.apply_tx(tx)?;
+            }
+            Ok::<u128, melstf::StateError>(trial.clone().seal(None).header().dosc_speed)
+        })
+    });
+    match r {
+        Ok(Ok(got)) => {
+            let want = prev.max(s_fast).max(s_slow);
+            if got != want {
+                viol!(
+                    "dosc-speed-not-max-of-block-built-in-steps",
+                    "four mints applied one call at a time (the one of difficulty {} {} the others): header speed {}, expected max(previous {}, {}, {}) = {}",
+                    d_fast,
+                    if fast_first { "first" } else { "third" },
+                    got,
+                    prev,
+                    s_fast,
+                    s_slow,
+                    want
+                );
+            }
+            st.class("four-mints-in-separate-calls-of-one-block");
+        }
+        Ok(Err(_)) => st.exclude("stepwise-mints-rejected"),
         Err(_) => st.exclude("panicked"),
     }
     Ok(())
